@@ -59,6 +59,9 @@ pub enum WsEnd {
     Drop,
     /// same, with a partial frame's bytes still undelivered to the application
     None,
+    /// the server sends one more large message (many frames), the application reads only its
+    /// first frame and drops the connection: what was received but not delivered dies with it
+    Abandon,
 }
 
 #[derive(Serialize, Deserialize, Clone, Debug, PartialEq, Eq)]
@@ -336,6 +339,22 @@ fn run_ws_inner(sc: &WsSc) -> WsRun {
                     },
                 });
             },
+            WsEnd::Abandon => {
+                let mut big = Vec::new();
+                for k in 0..2500u32 {
+                    big.extend_from_slice(&gen::tiny(sc.mode, (k % 200) as u8 + 1, 3));
+                }
+                let _ = tokio::time::timeout(GUARD, server.send(Message::binary(big))).await;
+                let r = tokio::time::timeout(GUARD, framed.read()).await;
+                events.push(WEv::End {
+                    res: match r {
+                        Err(_) => AppRes::Other("no result within 3 s".into()),
+                        Ok(r) => to_res(r),
+                    },
+                });
+                drop(framed);
+                drop(server);
+            },
             WsEnd::Drop | WsEnd::None => {
                 drop(server);
                 let r = tokio::time::timeout(GUARD * 2, framed.read()).await;
@@ -498,8 +517,9 @@ impl Prop for C20 {
             p = c;
         }
         // sometimes leave a partial frame at the very end
-        let mut end = match rng.below(3) {
-            0 => WsEnd::Drop,
+        let mut end = match rng.below(8) {
+            0 | 1 => WsEnd::Drop,
+            2 => WsEnd::Abandon,
             _ => WsEnd::Close,
         };
         if rng.chance(1, 8) {
@@ -565,7 +585,7 @@ impl Prop for C20 {
         // in a third of the sessions the end of the stream is already queued behind the last
         // messages when the application gets round to reading them; the sentinel then goes
         // before the last Send step
-        let late_read = rng.chance(1, 3);
+        let late_read = end != WsEnd::Abandon && rng.chance(1, 3);
         // sentinel write: flushes out anything unexpected the client may have sent
         let mut sentinel = vec![mode.size_byte(8), 4, 0xEE, 0, 0xAA, 0xBB, 0xCC, 0xDD];
         if !ref_decode_packet(mode, &sentinel).0.is_pkt() {
@@ -859,6 +879,14 @@ impl Prop for C20 {
                             rep.violations.push(v("ws.close_not_disconnected", format!("{} after a clean close handshake read returned {:?} instead of Disconnected", tag, res)));
                         }
                     },
+                    WsEnd::Abandon => {
+                        rep.fault("connection_abandoned_with_message_buffered");
+                        if partial_left {
+                            // the big message then continues a partial frame: not judged
+                        } else if !matches!(res, AppRes::Pkt(d) if d.contains("RequestId(1)") && d.contains("Ping")) {
+                            rep.violations.push(v("ws.wrong_packet", format!("{} first frame of the last (large) message: {:?}", tag, res)));
+                        }
+                    },
                     WsEnd::Drop | WsEnd::None => {
                         rep.probe("abrupt_drop");
                         match res {
@@ -960,6 +988,15 @@ impl Prop for C20 {
                 close_code: 0,
                 trace: false,
             });
+            // a connection abandoned with most of a large message still undelivered
+            v.push(WsSc {
+                mode,
+                steps: vec![],
+                end: WsEnd::Abandon,
+                late_read: false,
+                close_code: 0,
+                trace: false,
+            });
             // a connection abandoned with a partial frame received
             v.push(WsSc {
                 mode,
@@ -1024,6 +1061,7 @@ impl Prop for C20 {
             "read_dropped_after_first_poll",
             "control_message_storm",
             "ws_msg_gt_65535",
+            "connection_abandoned_with_message_buffered",
             "end_of_stream_queued_behind_unread_data",
         ]
     }
